@@ -356,7 +356,7 @@ def graph_slice(ctx, name, consts, flags, frac, rnd, procs):
     """dump the state graph of one slice, cover every edge, replay; returns traces for the variant runs"""
     dump = os.path.join(ctx.work, "g_%s" % name)
     cfgt = tlc.cfg(_consts(flags, **consts), invariants=MECH, constraints=["LevelBound"], view="GraphView")
-    r = tlc.run(SPEC, cfg_text=cfgt, workdir=os.path.join(ctx.work, "mc_" + name), workers=1, coverage=False, dump=dump, allow_violation=False)
+    r = tlc.run(SPEC, cfg_text=cfgt, workdir=os.path.join(ctx.work, "mc_" + name), workers=1, coverage=False, dump=dump, allow_violation=False, extra=["-fp", "0"])
     docutil.WANT = ("disk", "ideal", "depth", "dev", "last", "writers")
     nodes, edges, init = docutil.load_graph(dump + ".dot", procs=procs)
     os.remove(dump + ".dot")
